@@ -1,5 +1,7 @@
 import JSight.Rules
 import JSight.NumberDen
+import JSight.RulesFullProofs
+import JSight.Props.C10
 /-!
 # C02 — Scalar rules admit exactly the values their definitions describe (decision logic)
 
@@ -63,5 +65,156 @@ theorem C02_false_rules_inert (r : RawRules) :
 #guard litOK (compile { kind := .i, min := some "0", nullable := some false }) "null" == false
 #guard litOK (compile { kind := .s, minLen := some 2, maxLen := some 3 }) "\"ab\"" == true
 #guard litOK (compile { kind := .s, minLen := some 2, maxLen := some 3 }) "\"abcd\"" == false
+
+/-! # Every scalar rule (model `RulesF.litOKFull`, spec `RulesF.Accepts`)
+
+`JSight/RulesFull.lean` transliterates `ValidateLiteralValue` with ALL literal validators of
+`schema/constraint/c_*.go` (min / max with the folded exclusive flags, precision, minLength / maxLength, regex, enum,
+const, the five formats) and the compiler's folding (`RulesF.compile`); Go's `regexp`, `net/mail`, `net/url` and
+`time.Parse(RFC3339)` are the oracle parameters `RulesF.Oracles`. `JSight/RulesFullSpec.lean` states what each rule
+admits over the MEANING of the token: the exact decimal `Num.den` of a numeral, the RFC 8259 decoding of a string
+(`RulesF.text`, UTF-8 by Lean's own `String.utf8EncodeChar`). Tokens are structured (`RulesF.STok`): the three
+words, every string of the JSON grammar over arbitrary Unicode text, every RFC 8259 numeral except `0e1`-like ones
+(K-C10-zeroexp). Tied to the real `Validate` by `vh sem-rules-full` (driver word `semcf`). -/
+
+section Full
+open RulesF
+
+/-- **C02, every rule.** For every rule set over scalar tokens that the checker's applicability table allows and
+every scalar token of a JSON document: the validator accepts iff the token is a `null` admitted by
+`nullable: true`, or it has an admissible kind and satisfies every rule — min / max exactly (strict when
+exclusive), precision as a bound on the fractional digits of the VALUE, minLength / maxLength on the UTF-8 bytes of
+the DECODED string, regex / email / uri / datetime through the oracles on the decoded string, uuid / date by the
+in-repo definitions, enum type-sensitively (numbers by spelling: K-C10-enumtext), const by value. -/
+theorem C02_accept_iff_full (o : Oracles) (S : SSpec) (hS : S.WF) (hA : S.applicable = true)
+    (tok : STok) (ht : tok.WF) :
+    litOKFull o S.toModel tok.bytes = true ↔
+      (tok = .null ∧ S.nul = true) ∨ (Admissible S tok ∧ ∀ r ∈ S.rules, Sat o S.ex r tok) :=
+  RulesF.accept_iff o S hS hA tok ht
+
+/-- the library's `Unquote` computes the RFC 8259 meaning of every string token: escapes, `\uXXXX`, surrogate
+pairs (unpaired halves become U+FFFD), raw UTF-8 of any length -/
+theorem C02_unquote_is_decode (cs : List SCh) (h : ∀ c ∈ cs, c.ok) :
+    Unquote.unquote (STok.str cs).bytes = text cs := RulesF.unquote_str cs h
+
+/-- every RFC 8259 numeral other than `0e…` is a token of the theorems above, in either case of the exponent letter -/
+theorem C02_every_numeral_is_token (t : Num.Numeral) (hd : Props.C10.digitsOK t) (hw : t.wf) (hz : ¬ t.zeroExp) :
+    IsNumeral (t.render.map Props.C10.chByte) :=
+  ⟨t, hw, hz, Props.C10.ofBytes_chByte _ hd⟩
+
+/-- **precision** depends on the value only: two spellings of one number (`1.10`, `1.1`, `11e-1`) get one verdict -/
+theorem C02_precision_exact (o : Oracles) (ex : Bytes) (p : Nat) (a b : Bytes) (ha : IsNumeral a) (hb : IsNumeral b)
+    (h : Num.cmpDen (value a) (value b) = .eq) :
+    ruleOK o ex a (.precision p) = ruleOK o ex b (.precision p) := RulesF.precision_exact o ex p a b ha hb h
+
+/-- … and it is the bound "value · 10^p is an integer" -/
+theorem C02_precision_is_fraction_digits (o : Oracles) (ex : STok) (p : Nat) (v : Bytes) (hv : IsNumeral v) :
+    ruleOK o ex.bytes v (.precision p) = true ↔ FracDigitsLE p (value v) :=
+  RulesF.precision_iff o ex p (.num v) hv
+
+/-- **minLength / maxLength** count the UTF-8 bytes of the decoded string -/
+theorem C02_length_decoded (o : Oracles) (ex : Bytes) (cs : List SCh) (h : (STok.str cs).WF) (n : Nat) :
+    ruleOK o ex (STok.str cs).bytes (.minLength n) = decide (n ≤ (text cs).length) ∧
+    ruleOK o ex (STok.str cs).bytes (.maxLength n) = decide ((text cs).length ≤ n) :=
+  RulesF.length_decoded o ex cs h n
+
+/-- **const: true** is equality with the EXAMPLE by value: strings by decoded text, numbers by exact value -/
+theorem C02_const_by_value (o : Oracles) (ex tok : STok) (he : ex.WF) (ht : tok.WF) :
+    ruleOK o ex.bytes tok.bytes .const = true ↔ SameValue tok ex := RulesF.const_by_value o ex tok he ht
+
+/-- **enum** is membership among the items, type-sensitively: a token of another form (`"1"` against `1`) equals
+no item; strings compare by decoded text, numbers by spelling -/
+theorem C02_enum_type_sensitive (o : Oracles) (ex : STok) (items : List STok) (hi : ∀ it ∈ items, it.WF)
+    (tok : STok) (ht : tok.WF) :
+    (ruleOK o ex.bytes tok.bytes (SRule.enum items).toModel = true ↔ ∃ it ∈ items, EnumEq it tok) ∧
+    (∀ a b : STok, a.form ≠ b.form → ¬ EnumEq a b) :=
+  ⟨RulesF.enum_iff o ex items hi tok ht, RulesF.enum_type_sensitive⟩
+
+/-- **false-valued rules are inert**: `nullable: false`, `const: false`, `exclusiveMinimum: false`,
+`exclusiveMaximum: false` may stand anywhere in the annotation or be left out — the compiled node is the same -/
+theorem C02_false_rules_inert_full (kind : Rules.Kind) (ex : Bytes) (a b : List RawRule) (x : RawRule)
+    (hx : x = .nullable false ∨ x = .const false ∨ x = .exclusiveMinimum false ∨ x = .exclusiveMaximum false) :
+    compile kind ex (a ++ x :: b) = compile kind ex (a ++ b) := RulesF.false_rules_inert kind ex a b x hx
+
+/-- **null first**: with `nullable: true` the token `null` is accepted by EVERY compiled node, whatever its kind
+and its other rules (applicable or not); without it a non-null, enum-free node rejects `null` -/
+theorem C02_null_first (o : Oracles) (l : LitSpecF) :
+    (l.nul = true → litOKFull o l sNull = true) ∧
+    (l.nul = false → l.kind ≠ .n → hasEnum l = false → litOKFull o l sNull = false) :=
+  ⟨RulesF.null_first o l, RulesF.null_needs_nullable o l⟩
+
+/-! ### the two known classes, stated and refuted -/
+
+/-- the statement with enum membership of numbers by VALUE -/
+def C02_enum_by_value_full : Prop := RulesF.accept_iff_enum_by_value
+/-- false of the code (K-C10-enumtext): `2.50 // {enum: [2.50]}` rejects `2.5` -/
+theorem C02_enum_by_value_full_false : ¬ C02_enum_by_value_full := RulesF.accept_iff_enum_by_value_false
+/-- it holds whenever no enum item is a number equal to the token by value but spelled differently -/
+theorem C02_enum_by_value_partial (o : Oracles) (S : SSpec) (hS : S.WF) (hA : S.applicable = true)
+    (tok : STok) (ht : tok.WF) (hc : enumTextClass S tok = false) :
+    litOKFull o S.toModel tok.bytes = true ↔ Accepts EnumEqV o S tok :=
+  RulesF.accept_iff_enum_by_value_partial o S hS hA tok ht hc
+
+/-- the statement for every numeral of the RFC grammar, `0e1` included -/
+def C02_every_numeral_full : Prop := RulesF.accept_iff_every_numeral
+/-- false of the code (K-C10-zeroexp): the rule-free schema `1` rejects `0e1` -/
+theorem C02_every_numeral_full_false : ¬ C02_every_numeral_full := RulesF.accept_iff_every_numeral_false
+
+/-! ### non-vacuity: concrete instances (`bs` turns an ASCII literal into its bytes) -/
+
+def bs (s : String) : Bytes := s.toList.map (fun c => UInt8.ofNat c.toNat)
+
+/-- `1.5 // {min: 1.5, precision: 1}` against `15e-1` -/
+def exNum : SSpec := ⟨.f, .num (bs "1.5"), false, [.min (bs "1.5") false, .precision 1]⟩
+theorem exNum_ok : exNum.WF ∧ exNum.applicable = true ∧ (STok.num (bs "15e-1")).WF := by
+  refine ⟨⟨⟨⟨false, 1, [], some (5, []), none⟩, by simp [Num.Numeral.wf], by simp [Num.Numeral.zeroExp], by decide⟩, ?_⟩,
+    by decide, ⟨⟨false, 1, [5], none, some (some true, 1, [])⟩, by simp [Num.Numeral.wf], by simp [Num.Numeral.zeroExp], by decide⟩⟩
+  intro r hr
+  simp only [exNum, List.mem_cons, List.not_mem_nil, or_false] at hr
+  rcases hr with rfl | rfl
+  · exact ⟨⟨false, 1, [], some (5, []), none⟩, by simp [Num.Numeral.wf], by simp [Num.Numeral.zeroExp], by decide⟩
+  · trivial
+-- verdicts of the model on this instance (evaluated: `Number.Cmp` recurses on two lists, which the kernel does not unfold)
+#guard litOKFull RulesF.noOracle exNum.toModel (bs "15e-1") == true
+#guard litOKFull RulesF.noOracle exNum.toModel (bs "1.49") == false
+#guard litOKFull RulesF.noOracle exNum.toModel (bs "1.55") == false
+-- `1.10` has ONE fractional digit for the code: the trailing zeros of the fraction do not count, whatever the spelling
+example : ruleOK RulesF.noOracle (bs "1.5") (bs "1.10") (.precision 1) = true ∧
+          ruleOK RulesF.noOracle (bs "1.5") (bs "110e-2") (.precision 1) = true ∧
+          ruleOK RulesF.noOracle (bs "1.5") (bs "1.11") (.precision 1) = false ∧
+          ruleOK RulesF.noOracle (bs "1.5") (bs "5E-9") (.precision 8) = false := by decide +kernel
+
+/-- `"abcd" // {minLength: 2, maxLength: 4}` against the escaped pair `"😀"` (U+1F600: 4 bytes) -/
+def exStr : SSpec := ⟨.s, .str [.chr 'a', .chr 'b', .chr 'c', .chr 'd'], false, [.minLength 2, .maxLength 4]⟩
+def grin : STok := .str [.u4 100 56 51 100, .u4 100 101 48 48]
+theorem exStr_ok : exStr.WF ∧ exStr.applicable = true ∧ grin.WF := by
+  refine ⟨⟨?_, ?_⟩, by decide, ?_⟩
+  · intro c hc; simp only [List.mem_cons, List.not_mem_nil, or_false] at hc
+    rcases hc with rfl | rfl | rfl | rfl <;> exact ⟨by decide, by decide, by decide⟩
+  · intro r hr; simp only [exStr, List.mem_cons, List.not_mem_nil, or_false] at hr; rcases hr with rfl | rfl <;> trivial
+  · intro c hc; simp only [List.mem_cons, List.not_mem_nil, or_false] at hc
+    rcases hc with rfl | rfl <;> exact ⟨by decide, by decide, by decide, by decide⟩
+example : grin.bytes = bs "\"\\ud83d\\ude00\"" := by decide
+example : text [.u4 100 56 51 100, .u4 100 101 48 48] = [0xF0, 0x9F, 0x98, 0x80] := by
+  simp only [text, decodeS]; decide +kernel
+example : text [.u4 48 48 52 49] = [65] := by simp only [text, decodeS]; decide +kernel              -- "\u0041" is one byte
+example : text [.chr 'é'] = [0xC3, 0xA9] := by simp only [text, decodeS]; decide +kernel              -- é is two
+example : text [.u4 100 56 51 100] = [0xEF, 0xBF, 0xBD] := by simp only [text, decodeS]; decide +kernel  -- a lone surrogate is U+FFFD
+example : litOKFull RulesF.noOracle exStr.toModel grin.bytes = true := by decide +kernel
+example : litOKFull RulesF.noOracle exStr.toModel (bs "\"\\ud83d\\ude00s\"") = false := by decide +kernel
+
+-- const by value, enum by type
+#guard sameJSONValue (bs "1.50") (bs "15e-1") && !sameJSONValue (bs "1.50") (bs "1.51")
+example : sameJSONValue (bs "\"a\\u0062\"") (bs "\"ab\"") = true := by decide +kernel
+example : ruleOK RulesF.noOracle (bs "1") (bs "\"1\"") (.enum [bs "1"]) = false ∧
+          ruleOK RulesF.noOracle (bs "1") (bs "1") (.enum [bs "\"1\""]) = false ∧
+          ruleOK RulesF.noOracle (bs "1") (bs "1") (.enum [bs "\"1\"", bs "1"]) = true := by decide +kernel
+-- false-valued rules, null first
+example : compile .i (bs "1") [.min (bs "0"), .exclusiveMinimum false, .const false, .nullable false]
+        = compile .i (bs "1") [.min (bs "0")] := by decide
+example : litOKFull RulesF.noOracle (compile .s (bs "\"a\"") [.const true, .nullable true, .minLength 1]) sNull = true := by decide +kernel
+example : litOKFull RulesF.noOracle (compile .s (bs "\"a\"") [.const false, .nullable false, .minLength 1]) sNull = false := by decide +kernel
+
+end Full
 
 end Props.C02
